@@ -75,9 +75,9 @@ func runC19(c *Ctx) {
 		f3 := CallsIn(best, "consensus/sync.getMostFrequesntBlockIDNodeInfo")
 		ok := len(f1) == 1 && len(f2) == 1 && len(f3) == 1
 		if ok {
-			ok = T(f1[0].Call.Common().Args[0]).String() == "p0" &&
-				stripConv(f2[0].Call.Common().Args[0]) == f1[0].Call.Value() &&
-				stripConv(f3[0].Call.Common().Args[0]) == f2[0].Call.Value()
+			ok = T(ArgK(f1[0].Call, 0)).String() == "p0" &&
+				stripConv(ArgK(f2[0].Call, 0)) == f1[0].Call.Value() &&
+				stripConv(ArgK(f3[0].Call, 0)) == f2[0].Call.Value()
 		}
 		c.Require("C19.R1 filters-chained", FuncKey(best), p.Pos(best.Pos()), "prevoted-filter → height-filter → frequency-filter, each fed by the previous result", ok, "")
 		if ok {
@@ -208,7 +208,7 @@ func runC19(c *Ctx) {
 	}
 	if h := p.Fn("pkg/consensus/sync.(*Syncer).HandleRPCEndpointGetBlocksFromID$1"); h != nil {
 		for _, s := range CallsIn(h, "(*blockchain.DataAccess).GetBlocksBetweenHeight") {
-			from, to := T(s.Call.Common().Args[1]).String(), T(s.Call.Common().Args[2])
+			from, to := T(ArgK(s.Call, 1)).String(), T(ArgK(s.Call, 2))
 			okFrom := strings.HasSuffix(from, ".Height + 1)") && strings.Contains(from, "GetBlockHeader(")
 			okTo := to.Op == "call" && strings.HasPrefix(to.Sym, "collection/ints.Min") && strings.Contains(to.String(), "GetBlockHeader(") && strings.Contains(to.String(), "Chain).LastBlock(")
 			// constant cap
@@ -365,7 +365,7 @@ func runC19(c *Ctx) {
 	// ---- R5 block sync
 	{
 		for _, s := range CallsIn(common, "consensus/sync.getHeightWithGap") {
-			t := T(s.Call.Common().Args[1]).String()
+			t := T(ArgK(s.Call, 1)).String()
 			c.Require("C19.R5 search-not-below-finalized", FuncKey(common), p.InstrPos(s.Call), "the common-block search is bounded below by the finalized height", strings.HasSuffix(t, ".FinalizedBlockHeader.Height"), t)
 		}
 		c.MinInstances("C19.R5 search-not-below-finalized", len(CallsIn(common, "consensus/sync.getHeightWithGap")), 1)
